@@ -119,7 +119,7 @@ def run_property(prop, tier, rules, explanation, not_decided, technique):
     """rules: list of (rule name, tier, callable(ctx)). returns exit code."""
     t0 = time.time()
     seed = int(os.environ.get("VERIF_SEED", "0") or 0)
-    ev_dir = os.path.join(VERIF, "evidence")
+    ev_dir = os.environ.get("TLSVERIF_EVIDENCE_DIR") or os.path.join(VERIF, "evidence")
     os.makedirs(ev_dir, exist_ok=True)
     ev_path = os.path.join(ev_dir, prop + ".json")
     try:
@@ -183,7 +183,7 @@ def finish(ctx, explanation, not_decided, technique, t0, seed, ev_path):
             samples.append(d)
     replay_path = ""
     if new:
-        rp_dir = os.path.join(VERIF, "replay")
+        rp_dir = os.environ.get("TLSVERIF_REPLAY_DIR") or os.path.join(VERIF, "replay")
         os.makedirs(rp_dir, exist_ok=True)
         h = hashlib.sha1(("\n".join(sorted(f.key for f in new))).encode()).hexdigest()[:12]
         replay_path = os.path.join(rp_dir, "%s-%s.json" % (ctx.prop, h))
